@@ -320,10 +320,31 @@ def contracts(reg):
                           final={"state": state_fn(mix_columns)}, modifies=("state",)))
     out.append(FnContract(target=f"{AES}::_inv_mix_columns", params=[("state", p_list_bv(16))],
                           final={"state": state_fn(inv_mix_columns)}, modifies=("state",)))
-    out.append(FnContract(target=f"{AES}::_build_rcon", params=[("max_rounds", p_const(14))],
-                          returns=lambda c: VTuple([VInt(bv(0))] + [VInt(bv(rcon_spec(i))) for i in range(1, 15)])))
-    out.append(FnContract(target=f"{AES}::_rcon", params=[("n", p_const(14))],
-                          returns=lambda c: VTuple([VInt(bv(0))] + [VInt(bv(rcon_spec(i))) for i in range(1, 15)])))
+    def rcon_contract(fname, pname):
+        """Rcon table of a CONCRETE size: verified for the sizes the key schedule can ask for (Nr = 10, 12, 14) and for the real
+        default of the parameter (read from the signature: a call without argument gets THAT value, not a constant of this pack);
+        the result is a function of the argument; any other size at a call site is outside the verified domain (OUT-OF-SUBSET)."""
+        import ast
+        fn = loader.module(AES).functions.get(fname)
+        real = None
+        if fn is not None and fn.args.defaults and [a.arg for a in fn.args.args][-len(fn.args.defaults):].count(pname):
+            d = fn.args.defaults[[a.arg for a in fn.args.args][-len(fn.args.defaults):].index(pname)]
+            if isinstance(d, ast.Constant) and isinstance(d.value, int) and not isinstance(d.value, bool) and 0 <= d.value <= 64:
+                real = d.value
+        dom = sorted({10, 12, 14} | ({real} if real is not None else set()))
+        mk = p_alts(*[p_const(k) for k in dom])
+        mk.default = (lambda ex, st: ops.lift(real)) if real is not None else None
+
+        def returns(c):
+            n = c.args[pname].const() if isinstance(c.args[pname], VInt) else None
+            if n is None or n not in dom:
+                raise ops.Unsupported(f"{fname}({pname}={n}): size outside the verified domain {dom}")
+            return VTuple([VInt(bv(0))] + [VInt(bv(rcon_spec(i))) for i in range(1, n + 1)])
+        return FnContract(target=f"{AES}::{fname}", params=[(pname, mk)], returns=returns,
+                          note=f"Rcon[0] = 0, Rcon[i] = x^(i-1) for i = 1..{pname}; verified for {pname} in {dom}")
+
+    out.append(rcon_contract("_build_rcon", "max_rounds"))
+    out.append(rcon_contract("_rcon", "n"))
     out.append(FnContract(target=f"{AES}::_rot_word", params=[("word", p_list_bv(4))],
                           returns=lambda c: newlist(c, items_of(c, "word")[1:] + items_of(c, "word")[:1])))
     out.append(FnContract(target=f"{AES}::_sub_word", params=[("word", p_list_bv(4))],
@@ -385,6 +406,60 @@ def contracts(reg):
     return out
 
 
+def p_definition_time_default(fnode, expr):
+    """An optional parameter the property's callers never pass: its value is the DEFAULT, which Python evaluates ONCE, when the
+    `def` statement runs -- i.e. before the entry state of every call (PY-DEFAULT).  Whatever the default expression calls
+    (e.g. a randomness source) is therefore logged in the ENTRY state's ghost log, not inside the call."""
+    from pyvc.state import Frame, State
+
+    def evaluate(ex, st):
+        saved = st.frames
+        st.frames = [Frame({}, None, fnode)]
+        ex.sinks.append([])
+        try:
+            r = ex.ev(expr, st)
+        finally:
+            raised = ex.sinks.pop()
+            st.frames = saved
+        if len(r) != 1 or r[0][0] is not st or raised:
+            raise ops.Unsupported(f"default value of a parameter of {fnode.name} forks or may raise")
+        return r[0][1]
+
+    def mk(ex, st, name):
+        return evaluate(ex, st)
+    return Maker(mk, desc="default value (evaluated at definition time)", default=lambda ex, st: evaluate(ex, State()))
+
+
+def p_unsupported(why):
+    def mk(ex, st, name):
+        raise ops.Unsupported(why)
+    return Maker(mk, desc="unsupported")
+
+
+def sig_params(qual, roles):
+    """Contract parameters read from the REAL signature: the parameters the property talks about are bound by name (`roles`),
+    any further parameter must have a default (the property's callers -- pypdf -- never pass it) and is bound to that default."""
+    fnode = loader.module(AES).functions.get(qual)
+    if fnode is None:
+        return list(roles.items())
+    a = fnode.args
+    pos = a.posonlyargs + a.args
+    dflt = dict(zip([x.arg for x in pos[len(pos) - len(a.defaults):]], a.defaults))
+    dflt.update({x.arg: d for x, d in zip(a.kwonlyargs, a.kw_defaults) if d is not None})
+    out = []
+    for x in pos + a.kwonlyargs:
+        if x.arg in roles:
+            out.append((x.arg, roles[x.arg]))
+        elif x.arg in dflt:
+            out.append((x.arg, p_definition_time_default(fnode, dflt[x.arg])))
+        else:
+            out.append((x.arg, p_unsupported(f"{qual}: new required parameter `{x.arg}` (the callers of the property pass {sorted(roles)})")))
+    missing = [n for n in roles if n not in [o[0] for o in out]]
+    for n in missing:
+        out.append((n, p_unsupported(f"{qual}: parameter `{n}` no longer exists")))
+    return out
+
+
 def mode_contracts(reg):
     """Round-key cache, PKCS#7, ECB/CBC drivers and the CryptAES wrapper (symbolic-length messages)."""
     from contracts import c20_modes as M
@@ -419,7 +494,7 @@ def mode_contracts(reg):
 
     KEY = M.p_symbytes(desc="key: bytes of any length")
     out.append(FnContract(
-        target=f"{AES}::_get_round_keys", params=[("key", KEY)],
+        target=f"{AES}::_get_round_keys", params=sig_params("_get_round_keys", {"key": KEY}),
         returns=lambda c: VExt("RoundKeys", kexp_of(c.args["key"])),
         ensures=[("only-valid-key-lengths", lambda c: z3.Not(bad_len(c.args["key"].length)))],
         raises=[Raises("ValueError", when=lambda c: bad_len(c.args["key"].length))],
@@ -449,7 +524,7 @@ def mode_contracts(reg):
                       M.seq_eq(p, M.view(ra, n), p, z3.K(I, z3.Int2BV(p, 8))))              # ... followed by p bytes of value p
 
     out.append(FnContract(
-        target=f"{AES}::_pkcs7_pad", params=[("data", DATA), ("block_size", p_const(16))],
+        target=f"{AES}::_pkcs7_pad", params=sig_params("_pkcs7_pad", {"data": DATA, "block_size": p_const(16)}),
         ensures=[("data-followed-by-p-bytes-of-value-p", pad_post)],
         result_maker=fresh_bytes("padded"),
         note="p = 16 - len(data) % 16 in 1..16",
@@ -473,7 +548,7 @@ def mode_contracts(reg):
         return z3.If(n == 0, rn == 0, stripped)
 
     out.append(FnContract(
-        target=f"{AES}::_pkcs7_unpad", params=[("data", DATA), ("block_size", p_const(16))],
+        target=f"{AES}::_pkcs7_unpad", params=sig_params("_pkcs7_unpad", {"data": DATA, "block_size": p_const(16)}),
         ensures=[("removes-exactly-the-padding", unpad_post)],
         result_maker=fresh_bytes("unpadded"),
         raises=[Raises("ValueError", when=lambda c: z3.And(c.args["data"].length > 0, z3.Not(valid_padding(c))))],
@@ -489,19 +564,35 @@ def mode_contracts(reg):
         params=[("data", DATA), ("size", p_const(16))],
         requires=lambda c: c.args["data"].length % 16 == 0,
         returns=chunks_returns,
-        note="ASSUMED (3-line generator over memoryview slices; validated natively for lengths 0..64 in replay): "
-             "block j of a block-aligned buffer is bytes 16j..16j+15",
+        note="sequence-level SUMMARY used at the call sites (block j of a block-aligned buffer is bytes 16j..16j+15, len/16 blocks); "
+             "its content is discharged on the real generator body by the `_chunks/inv-*#chunk-k-is-bytes-16k..16k+15` obligations "
+             "(EXTRA chunks_iteration: per iteration + iteration count); only the composition `yielded sequence = per-iteration yields "
+             "in order` (PY-GEN) is assumed; validated natively in replay (chunks_ok)",
     ))
+
+    def offset_name(fname):
+        """the local that advances by one block per iteration of the driver's loop (`offset += 16`), read from the real AST so
+        that renaming it re-verifies"""
+        import ast
+        fn = loader.module(AES).functions.get(fname)
+        for loop in [n for n in ast.walk(fn) if isinstance(n, (ast.For, ast.While))] if fn is not None else []:
+            for n in loop.body:
+                if isinstance(n, ast.AugAssign) and isinstance(n.op, ast.Add) and isinstance(n.target, ast.Name) \
+                        and isinstance(n.value, ast.Constant) and n.value.value == 16:
+                    return n.target.id
+        return "offset"
 
     def spec_ecb(rk, a, ra, nblocks, fns):
         j = z3.Int("j!ecb")
         return z3.ForAll([j], M.ecb_at(fns, rk, a, ra, nblocks, j))
 
     def ecb_contract(name, fns):
+        OFF = offset_name(name)
+
         def inv(lc):
             n, a = M.arr_of(lc.entry.lookup("data"))
             on, oa = lc.st.obj(lc["out"].ref).data
-            return z3.And(ops.int_term(lc["offset"]) == 16 * lc.i, on == n)
+            return z3.And(ops.int_term(lc[OFF]) == 16 * lc.i, on == n)
 
         def inv_point(lc, j):
             n, a = M.arr_of(lc.entry.lookup("data"))
@@ -517,7 +608,7 @@ def mode_contracts(reg):
             return z3.Or(c.args["data"].length % 16 != 0, bad_len(c.args["key"].length))
 
         return FnContract(
-            target=f"{AES}::{name}", params=[("key", KEY), ("data", DATA)],
+            target=f"{AES}::{name}", params=sig_params(name, {"key": KEY, "data": DATA}),
             ensures=[("every-block-is-the-block-cipher-of-the-corresponding-input-block", post), ("lengths-valid", lambda c: z3.Not(bad(c)))],
             raises=[Raises("ValueError", when=bad)],
             loops={0: LoopSpec(inv=inv, inv_point=inv_point, label="blocks")},
@@ -546,6 +637,7 @@ def mode_contracts(reg):
 
     def cbc_contract(name, enc):
         at = M.cbc_enc_at if enc else M.cbc_dec_at
+        OFF = offset_name(name)
 
         def parts(lc):
             n, a = M.arr_of(lc.entry.lookup("data"))
@@ -557,7 +649,7 @@ def mode_contracts(reg):
             n, a, iva, on, oa = parts(lc)
             chained = oa if enc else a
             prev_ok = z3.And([p_ == c_ for p_, c_ in zip(prev_terms(lc["prev"]), M.chain(lc.i, iva, chained))])
-            return z3.And(ops.int_term(lc["offset"]) == 16 * lc.i, on == n, prev_ok)
+            return z3.And(ops.int_term(lc[OFF]) == 16 * lc.i, on == n, prev_ok)
 
         def inv_point(lc, j):
             n, a, iva, on, oa = parts(lc)
@@ -573,7 +665,7 @@ def mode_contracts(reg):
             return z3.Or(c.args["iv"].length != 16, c.args["data"].length % 16 != 0, bad_len(c.args["key"].length))
 
         return FnContract(
-            target=f"{AES}::{name}", params=[("key", KEY), ("iv", IV), ("data", DATA)],
+            target=f"{AES}::{name}", params=sig_params(name, {"key": KEY, "iv": IV, "data": DATA}),
             ensures=[("cbc-chaining-equation-for-every-block", post), ("lengths-valid", lambda c: z3.Not(bad(c)))],
             raises=[Raises("ValueError", when=bad)],
             loops={0: LoopSpec(inv=inv, inv_point=inv_point, label="blocks", rebind={"prev": fresh_block("prev")})},
@@ -585,16 +677,50 @@ def mode_contracts(reg):
     out.append(cbc_contract("aes_cbc_decrypt", False))
 
     # ---- the CryptAES stream wrapper installed into pypdf
-    reg.ext_models["secrets.token_bytes"] = lambda ex, st, args, kwargs, node: [(st, VBytes([VInt(z3.BitVec(fresh_name(f"iv_{t}"), 8)) for t in range(16)]))]
+    def m_random_bytes(ex, st, args, kwargs, node):
+        """ASSUMED model of the OS randomness sources: n fresh, unconstrained bytes; every call is logged in the ghost log
+        (tag "token"), which is how the wrapper contract says *this call drew its own IV*."""
+        nb = args[0] if args else kwargs.get("nbytes", kwargs.get("size"))
+        n = nb.const() if isinstance(nb, VInt) else None
+        if n is None or not 0 <= n <= 64:
+            raise ops.Unsupported(f"{ex.loc(node)} randomness source with a non-constant / large size")
+        v = VBytes([VInt(z3.BitVec(fresh_name(f"rnd_{t}"), 8)) for t in range(n)])
+        st.ghost["calls"] = st.ghost.get("calls", ()) + (("token", {"n": n}, v),)
+        return [(st, v)]
+
+    reg.ext_models["secrets.token_bytes"] = m_random_bytes
+    reg.ext_models["os.urandom"] = m_random_bytes
     from pyvc.verify import p_obj
     SELF = p_obj("CryptAES", {"key": KEY})
     W = f"{AES}::patch_pypdf_fallback_aes.<locals>."
 
+    def same_bytes(x, y):
+        nx, ax = M.arr_of(x)
+        ny, ay = M.arr_of(y)
+        return M.seq_eq(nx, ax, ny, ay)
+
+    def init_post(c):
+        o = c.st.obj(c.args["self"].ref)
+        k = o.data.get("key") if o.kind == "obj" and isinstance(o.data, dict) else None
+        if k is None:
+            return z3.BoolVal(False)
+        return same_bytes(k, c.args["key"])
+
+    out.append(FnContract(
+        target=W + "_cryptaes_init", params=sig_params("patch_pypdf_fallback_aes.<locals>._cryptaes_init", {"self": p_obj("CryptAES", {}), "key": KEY}),
+        ensures=[("stores-exactly-the-given-key", init_post)], modifies=("self",), raises=[],
+        note="CryptAES(key).key == key for every key (what the encrypt / decrypt contracts read as self.key); a bad key length is "
+             "rejected by the first encrypt / decrypt call",
+    ))
+
+    def in_call(c):
+        """ghost log entries made between the entry and the exit of the verified call"""
+        return c.st.ghost.get("calls", ())[len(c.entry.ghost.get("calls", ())):]
+
     def the_call(c, tag):
-        cs = [x for x in c.st.ghost.get("calls", ()) if x[0] == tag]
+        cs = [x for x in in_call(c) if x[0] == tag]
         return cs[0] if len(cs) == 1 else None
 
-    def same_bytes(x, y):
         nx, ax = M.arr_of(x)
         ny, ay = M.arr_of(y)
         return M.seq_eq(nx, ax, ny, ay)
@@ -613,11 +739,28 @@ def mode_contracts(reg):
                       rn == 16 + en, M.seq_eq(16, ra, 16, iva),            # ... and returns IV || ciphertext
                       M.seq_eq(en, M.view(ra, 16), en, ea))
 
+    def iv_fresh(c):
+        """the IV handed to CBC (== the 16 bytes prepended, by the clause above) is the result of a 16-byte draw from the OS
+        randomness source made DURING this call: values that exist at entry (module / closure state, default arguments) are
+        the same for every call and hence not fresh"""
+        enc = the_call(c, "cbc_enc")
+        if enc is None:
+            raise ops.Unsupported("wrapper does not call aes_cbc_encrypt exactly once")
+        ivn, iva = M.arr_of(enc[1]["iv"])
+        draws = [x for x in in_call(c) if x[0] == "token"]
+        if not draws:
+            # a structural observation, not a solver model: UNDECIDED here; the native replayer compares the IVs of several calls
+            raise ops.Unsupported("no draw from secrets.token_bytes / os.urandom between entry and exit of the call: "
+                                  "the IV is a value that existed before the call (same for every call)")
+        return z3.Or([z3.BoolVal(False)] + [z3.And(x[1]["n"] == 16, same_bytes(enc[1]["iv"], x[2])) for x in draws])
+
     out.append(FnContract(
-        target=W + "_cryptaes_encrypt", params=[("self", SELF), ("data", DATA)],
-        ensures=[("returns-iv-followed-by-cbc-of-the-padded-data", enc_post)],
+        target=W + "_cryptaes_encrypt", params=sig_params("patch_pypdf_fallback_aes.<locals>._cryptaes_encrypt", {"self": SELF, "data": DATA}),
+        ensures=[("returns-iv-followed-by-cbc-of-the-padded-data", enc_post),
+                 ("iv-is-drawn-from-the-randomness-source-within-this-call", iv_fresh)],
         raises=[Raises("ValueError", when=lambda c: bad_len(c.entry.obj(c.args["self"].ref).data["key"].length))],
-        note="the IV is whatever secrets.token_bytes(16) returned (16 bytes; freshness is not expressible)",
+        note="fresh IV = a 16-byte secrets.token_bytes / os.urandom draw made inside the call (ASSUMED: the OS source returns "
+             "independent uniform bytes); optional extra parameters take their definition-time defaults (pypdf passes only `data`)",
     ))
 
     def dec_post(c):
@@ -638,7 +781,7 @@ def mode_contracts(reg):
                       same_bytes(c.result, unp[2]))
 
     out.append(FnContract(
-        target=W + "_cryptaes_decrypt", params=[("self", SELF), ("data", DATA)],
+        target=W + "_cryptaes_decrypt", params=sig_params("patch_pypdf_fallback_aes.<locals>._cryptaes_decrypt", {"self": SELF, "data": DATA}),
         ensures=[("returns-unpadded-cbc-plaintext-of-data-after-the-iv", dec_post)],
         raises=[Raises("ValueError", label="bad key length, short IV or invalid padding (raised by the callee contracts)")],
         note="for block-aligned ciphertexts; a ragged payload is padded first (pypdf compatibility) -- not part of the statement",
@@ -745,12 +888,194 @@ def table_checks(repo, tier):
         G(f"C20/_pypdf_aes_fallback.py::_MUL{k}/module-invariant#equals-gf-multiples-of-{k}", ok and not bad, f"bad indices {bad[:4]}; kind {type(v).__name__}")
     v = ex.module_const("_RCON")
     items = getattr(v, "items", None) or []
-    ok = len(items) == 15 and all(z3.simplify(it.t).as_long() == (0 if i == 0 else rcon_spec(i)) for i, it in enumerate(items))
-    G("C20/_pypdf_aes_fallback.py::_RCON/module-invariant#equals-powers-of-x", ok, f"kind {type(v).__name__}")
+    # every entry present is the right power of x (how many entries _expand_key needs is decided by its own contract)
+    ok = len(items) >= 2 and all(z3.simplify(it.t).as_long() == (0 if i == 0 else rcon_spec(i)) for i, it in enumerate(items))
+    G("C20/_pypdf_aes_fallback.py::_RCON/module-invariant#equals-powers-of-x", ok, f"kind {type(v).__name__}, {len(items)} entries")
     return {"obligations": obls}
 
 
-EXTRA = [table_checks]
+def post_report(contract, rep):
+    """`iv-is-drawn-...` is a SUFFICIENT condition for freshness (the IV *is* a draw made inside the call); an IV computed
+    from such a draw in some other way makes the solver refute the clause without being a counterexample to the property:
+    such a model is downgraded to `unknown`, the native replayer (IVs of several calls compared) decides."""
+    for o in rep.obligations:
+        if o["id"].endswith("#iv-is-drawn-from-the-randomness-source-within-this-call") and o["status"] == "refuted":
+            o["status"] = "unknown"
+            o["reason"] = "the IV is not literally a 16-byte draw made inside the call (sufficient condition failed): " + (o.get("reason") or "")
+
+
+DRIVERS = ("aes_ecb_encrypt", "aes_ecb_decrypt", "aes_cbc_encrypt", "aes_cbc_decrypt")
+PYPDF_FALLBACK, PYPDF_PROVIDERS, PYPDF_ENCRYPTION = "pypdf._crypt_providers._fallback", "pypdf._crypt_providers", "pypdf._encryption"
+METHOD_ROLES = {"__init__": "_cryptaes_init", "encrypt": "_cryptaes_encrypt", "decrypt": "_cryptaes_decrypt"}
+
+
+def install_site(repo, tier):
+    """The installation site `patch_pypdf_fallback_aes`: what pypdf calls after the patch IS the code under contract.
+    Obligations (dataflow on the real AST; the body must be the straight-line shape guard / imports / defs / stores / return True,
+    anything else is an unrecognised shape = UNDECIDED, decided by the native replayer through pypdf's own bindings):
+      * every store `<pypdf module>.aes_xxx = V`: V is the module-level function aes_xxx of this module (same name, not shadowed);
+      * every store `<fallback>.CryptAES.<m> = V`: V is the nested function that is verified under the contract of role <m>;
+      * `<module>.CryptAES = V`: V is `<fallback>.CryptAES` (the patched class);
+      * completeness: all 4 drivers + the 3 methods on the fallback module, all 4 drivers + CryptAES on the two modules that
+        imported the names earlier -- on every path that returns True."""
+    import ast
+    from pyvc.flow import dotted, ground_obligation
+    m = loader.module(AES, repo)
+    f = m.functions.get("patch_pypdf_fallback_aes")
+    pre = "C20/_pypdf_aes_fallback.py::patch_pypdf_fallback_aes/install"
+    if f is None:
+        return {"obligations": [], "undecided": [{"obligation": pre, "why": "contract-target-missing"}]}
+    obls = []
+    G = lambda label, ok, why="", definite=True: obls.append(ground_obligation(f"{pre}#{label}", ok, "" if ok else why, AES, kind="call-site", definite=definite))
+    alias, stores, shape_ok, why_shape = {}, [], True, ""
+    nested = {}
+    local_names = set()
+    body = list(f.body)
+    if body and isinstance(body[0], ast.Expr) and isinstance(body[0].value, ast.Constant) and isinstance(body[0].value.value, str):
+        body = body[1:]
+    returned_true = False
+    guards = []
+    for st_ in body:
+        if returned_true:
+            shape_ok, why_shape = False, f"line {st_.lineno}: code after `return True`"
+        if isinstance(st_, ast.Import):
+            for a in st_.names:
+                if a.asname:
+                    alias[a.asname] = a.name
+                else:
+                    shape_ok, why_shape = False, f"line {st_.lineno}: import without alias"
+        elif isinstance(st_, ast.FunctionDef):
+            nested[st_.name] = st_
+        elif isinstance(st_, ast.If) and not st_.orelse and len(st_.body) == 1 and isinstance(st_.body[0], ast.Return) \
+                and isinstance(st_.body[0].value, ast.Constant) and st_.body[0].value.value is False \
+                and not any(isinstance(n, (ast.Call, ast.NamedExpr)) for n in ast.walk(st_.test)):
+            guards.append(st_.test)               # guard: not applicable -> returns False before any store
+        elif isinstance(st_, ast.Assign) and len(st_.targets) == 1 and isinstance(st_.targets[0], ast.Attribute):
+            stores.append((dotted(st_.targets[0]), st_.value, st_.lineno))
+        elif isinstance(st_, ast.Return) and isinstance(st_.value, ast.Constant) and st_.value.value is True:
+            returned_true = True
+        else:
+            shape_ok, why_shape = False, f"line {st_.lineno}: {type(st_).__name__} statement not of the installation shape"
+            for n in ast.walk(st_):
+                if isinstance(n, ast.Name) and isinstance(n.ctx, ast.Store):
+                    local_names.add(n.id)
+    G("body-has-the-straight-line-installation-shape", shape_ok and returned_true, why_shape or "no `return True`", definite=False)
+    mod_of = lambda name: alias.get(name, "")
+
+    def is_fallback_test(t):
+        """<providers>.crypt_provider[0] != "local_crypt_fallback"  (the only reason not to install)"""
+        return (isinstance(t, ast.Compare) and len(t.ops) == 1 and isinstance(t.ops[0], ast.NotEq)
+                and isinstance(t.comparators[0], ast.Constant) and t.comparators[0].value == "local_crypt_fallback"
+                and isinstance(t.left, ast.Subscript) and isinstance(t.left.slice, ast.Constant) and t.left.slice.value == 0
+                and isinstance(t.left.value, ast.Attribute) and t.left.value.attr == "crypt_provider"
+                and isinstance(t.left.value.value, ast.Name) and mod_of(t.left.value.value.id) == PYPDF_PROVIDERS)
+    G("installs-whenever-pypdf-runs-on-its-fallback-provider", len(guards) <= 1 and all(is_fallback_test(t) for t in guards),
+      "guards: " + "; ".join(ast.unparse(t) for t in guards), definite=False)
+    final = {}
+    bad = []
+    for (tgt, val, line) in stores:
+        parts = tgt.split(".")
+        modname = mod_of(parts[0]) if parts and parts[0] else ""
+        key = None
+        if len(parts) == 2 and parts[1] in DRIVERS and modname in (PYPDF_FALLBACK, PYPDF_PROVIDERS, PYPDF_ENCRYPTION):
+            ok = isinstance(val, ast.Name) and val.id == parts[1] and val.id in m.functions and val.id not in nested and val.id not in local_names
+            key = (modname, parts[1])
+        elif len(parts) == 3 and parts[1] == "CryptAES" and parts[2] in METHOD_ROLES and modname == PYPDF_FALLBACK:
+            ok = isinstance(val, ast.Name) and val.id == METHOD_ROLES[parts[2]] and val.id in nested and val.id not in local_names
+            key = (modname, "CryptAES." + parts[2])
+        elif len(parts) == 2 and parts[1] == "CryptAES" and modname in (PYPDF_PROVIDERS, PYPDF_ENCRYPTION):
+            src = dotted(val).split(".")
+            ok = len(src) == 2 and mod_of(src[0]) == PYPDF_FALLBACK and src[1] == "CryptAES"
+            key = (modname, "CryptAES")
+        else:
+            ok = False
+        if not ok:
+            bad.append(f"line {line}: {tgt} = {ast.unparse(val)}")
+        if key is not None:
+            final[key] = ok
+    G("every-store-binds-the-function-verified-for-that-name", not bad, "; ".join(bad[:4]))
+    want = [(PYPDF_FALLBACK, d) for d in DRIVERS] + [(PYPDF_FALLBACK, "CryptAES." + k) for k in METHOD_ROLES]
+    for mod_ in (PYPDF_PROVIDERS, PYPDF_ENCRYPTION):
+        want += [(mod_, d) for d in DRIVERS] + [(mod_, "CryptAES")]
+    missing = [f"{a}.{b}" for (a, b) in want if (a, b) not in final]
+    G("all-names-pypdf-uses-are-rebound", not missing, "not rebound: " + ", ".join(missing[:6]))
+    return {"obligations": obls, "functions": [dict(m.fn_info("patch_pypdf_fallback_aes"), obligations=len(obls))]}
+
+
+def chunks_iteration(repo, tier):
+    """`_chunks` is used by the drivers through a SEQUENCE-level summary (block j = bytes 16j..16j+15, len/16 blocks).  Its content
+    is discharged here on the real generator body, per iteration: in the k-th iteration of its loop exactly one value is
+    yielded and it is the 16 bytes data[16k .. 16k+15]; the iteration count len/16 is the engine's `range(0, n, 16)`; that the
+    yielded sequence is the per-iteration yields in order is the eager generator semantics PY-GEN."""
+    from contracts import c20_modes as M
+    from pyvc import verify
+    from pyvc.contracts import Registry
+    from pyvc.exctypes import Universe
+    reg = Registry()
+    for c in contracts(reg):
+        reg.add(c)
+    DATA = M.p_symbytes(desc="data: bytes of any block-aligned length")
+
+    def inv(lc):
+        n, a = M.arr_of(lc.entry.lookup("data"))
+        if lc.extra.get("phase") == "init":
+            return lc.seq.length == n / 16             # the loop runs len/16 times
+        if lc.extra.get("phase") != "preserve":
+            return z3.BoolVal(True)
+        new = lc.st.yielded[len(lc.entry.yielded):]
+        if len(new) != 1:
+            return z3.BoolVal(False)
+        try:
+            yn, ya = M.arr_of(new[0])
+        except ops.Unsupported:
+            return z3.BoolVal(False)
+        k = lc.i - 1                                   # the iteration just finished
+        return z3.And(yn == 16, z3.And([z3.Select(ya, t) == z3.Select(a, 16 * k + t) for t in range(16)]))
+
+    c = FnContract(target=f"{AES}::_chunks", generator=True, params=[("data", DATA), ("size", p_const(16))],
+                   requires=lambda c: c.args["data"].length % 16 == 0, raises=[],
+                   loops={0: LoopSpec(inv=inv, label="chunk-k-is-bytes-16k..16k+15")})
+    rep = verify.run_contract("C20", c, reg, Universe(repo), repo=repo, executor_cls=M.C20Executor)
+    pre = "C20/_pypdf_aes_fallback.py::_chunks"
+    if rep.error or rep.out_of_subset:
+        return {"obligations": [{"id": f"{pre}/out-of-subset", "kind": "out-of-subset", "status": "unknown", "vcs": 0, "seconds": 0.0, "backends": {},
+                                 "witness": None, "reason": "OUT-OF-SUBSET " + str(rep.error or rep.out_of_subset), "function": f"{AES}::_chunks", "loc": ""}]}
+    keep = [o for o in rep.obligations if "inv-" in o["id"] or o["id"].endswith("/raises")]
+    for o in keep:
+        o["function"] = f"{AES}::_chunks"
+    m = loader.module(AES, repo)
+    return {"obligations": keep, "functions": [dict(m.fn_info("_chunks"), obligations=len(keep))]}
+
+
+def cache_policy(repo, tier):
+    """`_ROUND_KEY_CACHE` is read and written only by `_get_round_keys` (whose stores carry the cache-invariant obligation):
+    the class invariant assumed by the cache-lookup model has no other writer in the package."""
+    import ast
+    from pyvc.flow import ground_obligation
+    uses = []
+    for rel in loader.all_package_files(repo):
+        mod = loader.module(rel, repo)
+        if "_ROUND_KEY_CACHE" not in mod.source:
+            continue
+        owner = {}                      # innermost enclosing function of every node
+        for q, fn in sorted(mod.functions.items(), key=lambda kv: -kv[0].count(".")):
+            for n in ast.walk(fn):
+                owner.setdefault(id(n), q)
+        for n in ast.walk(mod.tree):
+            if (isinstance(n, ast.Name) and n.id == "_ROUND_KEY_CACHE") or (isinstance(n, ast.Attribute) and n.attr == "_ROUND_KEY_CACHE") \
+                    or (isinstance(n, ast.Constant) and n.value == "_ROUND_KEY_CACHE") or (isinstance(n, ast.alias) and n.name == "_ROUND_KEY_CACHE"):
+                q = owner.get(id(n), "<module>")
+                if rel == AES and q == "<module>" and isinstance(n, ast.Name) and isinstance(n.ctx, ast.Store):
+                    continue        # the module-level definition
+                if rel == AES and q == "_get_round_keys":
+                    continue
+                uses.append(f"{rel.split('/')[-1]}:{n.lineno} in {q}")
+    ob = ground_obligation("C20/_pypdf_aes_fallback.py::_ROUND_KEY_CACHE/policy#only-_get_round_keys-touches-the-cache", not uses,
+                           "other uses: " + ", ".join(uses[:5]), AES, kind="policy", definite=False)
+    return {"obligations": [ob]}
+
+
+EXTRA = [table_checks, install_site, cache_policy, chunks_iteration]
 REPLAY_UNKNOWN = True
 from contracts.c20_modes import C20Executor as EXECUTOR  # noqa: E402
 TRUSTED = ["FIPS-197 spec transcription in contracts/C20.py (guarded by known-answer vectors each run)"]
